@@ -709,7 +709,7 @@ def run(chk: Check):
     t_phase = time.time()
     ignore_extract.run(chk)
     model = chk.lean('XvcIgnore', 'XvcIgnore.Props.C16', exe='ignoremodel',
-                     extra_modules=['XvcIgnore.Glob', 'XvcIgnore.Pattern', 'XvcIgnore.Walk', 'XvcIgnore.GitIgnore', 'XvcIgnore.Lemmas', 'XvcIgnore.GitLemmas', 'XvcIgnore.GitMono'])
+                     extra_modules=['XvcIgnore.Glob', 'XvcIgnore.Pattern', 'XvcIgnore.Walk', 'XvcIgnore.GitIgnore', 'XvcIgnore.Lemmas', 'XvcIgnore.GitLemmas', 'XvcIgnore.GitMono', 'XvcIgnore.GitDir'])
     impl, _ = c09.build_harness(chk)
     xvc = chk.build_xvc()
     if not os.path.exists(model):
